@@ -799,6 +799,19 @@ func uxRunPath(p *uxPathIn) (out uxPathOut) {
 			if e.pc == uxIdle {
 				step.Dump = e.wait()
 			}
+		case "Signal":
+			// a late cv.Signal (of an Enqueue that already returned)
+			if e.pc != uxIdle {
+				if !drifted {
+					drifted = true
+					out.Steps = append(out.Steps, uxStepOut{Act: uxAct{Op: "Skip", Res: a.Op}, Obs: e.obs(),
+						Note: fmt.Sprintf("model step Signal but the batch manager is at pc %d", e.pc)})
+				}
+				continue
+			}
+			e.s.cv.Signal()
+			a.Res = "ok"
+			step.Dump = e.wait()
 		default:
 			want, ok := uxOpPc[a.Op]
 			if !ok {
